@@ -407,8 +407,9 @@ class Gen(object):
         intv = lambda: self.expr('int', self.maxdepth - 1)
         kinds = ['fcall_stmt', 'fcall_value', 'mix', 'classop', 'classop_value', 'bridge', 'bridge_assign', 'enum', 'const',
                  'bridge_value', 'ref_read']
+        kinds += ['udt_call']
         if self.home != 'derived':
-            kinds += ['param', 'param_if']        # a derived attribute has no parameters
+            kinds += ['param', 'param_if', 'udt_param']        # a derived attribute has no parameters
         la = self.live_insts('A')
         if la:
             kinds += ['instop', 'instop_value']
@@ -457,6 +458,14 @@ class Gen(object):
             return assign_new('int', 'o', Bin('+', {'t': 'ocall', 'h': V(n), 'n': 'iop', 'ps': ps(k=intv())}, I(1)))
         if k == 'param':
             return assign_new('int', 'p', Bin('+', {'t': 'param', 'n': 'x'}, intv()))
+        if k in ('udt_param', 'udt_call'):
+            # values of a user-defined type (Count over integer): the variable they declare, and what is computed from it
+            src = {'t': 'param', 'n': 'cnt'} if k == 'udt_param' else {'t': 'fcall', 'n': 'tally', 'ps': ps(n=intv())}
+            first = assign_new('int', 'u', src)
+            u = first['lhs']['n']
+            return [first, Assign(V(u), Bin(r.choice(['+', '*']), V(u), I(r.randint(1, 3)))),
+                    If(Bin(r.choice(['>', '==']), V(u), I(r.randint(0, 5))),
+                       scoped(lambda: [assign_new('int', 'w', Bin('+', I(1), V(u)))]))]
         if k == 'param_if':
             return If({'t': 'param', 'n': 'flag'}, scoped(lambda: [assign_new('str', 'p', {'t': 'param', 'n': 's'})]))
         if k == 'enum':
